@@ -196,7 +196,7 @@ struct PollTemplates {
 
 fn expect_outs(what: &str, got: Outs, want: Outs, mon: &PollMon, rep: &mut Report, path: &dyn Fn() -> Vec<String>) {
     if got != want {
-        rep.violation(
+        crate::viol!(rep, 
             format!("C13:template:{}", what),
             format!("{}: got {:?}, expected {:?}", what, got, want),
             history_json("polling", Some(mon.timeout), path, json!(format!("{:?}", want)), json!(format!("{:?}", got))),
@@ -326,7 +326,7 @@ fn metamorphic(cfg: &Cfg, rep: &mut Report, total: u64) {
             let scaled = runit(timeout, 0, 1000, rep);
             if base != shifted || base != scaled {
                 let which = if base != shifted { "epoch-shift" } else { "time-scale" };
-                rep.violation(
+                crate::viol!(rep, 
                     format!("C13:metamorphic-{}", which),
                     format!("outputs differ under {} (timeout {} ns)", which, timeout),
                     history_json("polling", Some(timeout), &|| hist.iter().map(|e| e.render()).collect(), json!(format!("{:?}", base)), json!(format!("{:?} / {:?}", shifted, scaled))),
@@ -592,7 +592,7 @@ fn play(
     macro_rules! mismatch {
         ($what:expr, $got:expr, $want:expr) => {{
             let h = &hist;
-            rep.violation(
+            crate::viol!(rep, 
                 format!("C12:{}", $what),
                 format!("{}: got {:?}, intended {:?}", $what, $got, $want),
                 history_json("polling", Some(t), &|| prefix.iter().cloned().chain(h.iter().map(|e| e.render())).collect(), json!(format!("{:?}", $want)), json!(format!("{:?}", $got))),
